@@ -2,8 +2,8 @@
    CompareVersions, includesVersion, versionDependency.satisfies,
    ResolvePackageNameVersionPin, ParsedConstraint.SatisfiedBy. No proofs. *)
 From Apko Require Import Base.Prelude Base.Regex
-  Generated.Regexes Generated.VersionConsts Generated.C03Version.
-Open Scope Z_scope.
+  Generated.Regexes Generated.VersionConsts Generated.C03Version Generated.C03Ladders.
+Local Open Scope string_scope. Open Scope Z_scope.
 
 (* the Go struct Version, enum fields as their integer values *)
 Record mver := {
@@ -125,43 +125,72 @@ Fixpoint cmp_numbers (a b : list Z) : option Z :=      (* the for loop; None = f
   | _, _ => None
   end.
 
-Definition none_to_max (p : Z) : Z := if p =? pre_None then pre_Max else p.
-
 Definition ladder (x y : Z) (k : Z) : Z :=
   if x >? y then cmp_greater else if x <? y then cmp_less else k.
 
-Definition compare_versions (a r : mver) : Z :=
-  match cmp_numbers (m_nums a) (m_nums r) with
-  | Some c => c
-  | None =>
-    ladder (Z.of_nat (List.length (m_nums a))) (Z.of_nat (List.length (m_nums r)))
-   (ladder (m_letter a) (m_letter r)
-   (ladder (none_to_max (m_pre a)) (none_to_max (m_pre r))
-   (ladder (m_pre_n a) (m_pre_n r)
-   (ladder (m_post a) (m_post r)
-   (ladder (m_post_n a) (m_post_n r)
-   (ladder (m_rev a) (m_rev r) cmp_equal))))))
+(* struct fields by their Go names *)
+Definition field_of (f : string) (m : mver) : Z :=
+  if String.eqb f "letter" then m_letter m
+  else if String.eqb f "preSuffix" then m_pre m
+  else if String.eqb f "preSuffixNumber" then m_pre_n m
+  else if String.eqb f "postSuffix" then m_post m
+  else if String.eqb f "postSuffixNumber" then m_post_n m
+  else if String.eqb f "revision" then m_rev m
+  else 0.
+Definition slice_of (f : string) (m : mver) : list Z :=
+  if String.eqb f "numbers" then m_nums m else [].
+Definition zlen (l : list Z) : Z := Z.of_nat (List.length l).
+Definition map_value (from to x : Z) : Z := if x =? from then to else x.
+
+(* CompareVersions = the rungs goextract recognised in the source, in source
+   order (Generated.C03Ladders.compare_ladder), ending in "return equal" *)
+Fixpoint interp_compare (rs : list rung) (a r : mver) : Z :=
+  match rs with
+  | [] => cmp_equal
+  | RLoopNums f :: rest =>
+      match cmp_numbers (slice_of f a) (slice_of f r) with
+      | Some c => c
+      | None => interp_compare rest a r
+      end
+  | RLen f :: rest => ladder (zlen (slice_of f a)) (zlen (slice_of f r)) (interp_compare rest a r)
+  | RField f :: rest => ladder (field_of f a) (field_of f r) (interp_compare rest a r)
+  | RMapped f from to :: rest =>
+      ladder (map_value from to (field_of f a)) (map_value from to (field_of f r)) (interp_compare rest a r)
   end.
 
-(* ---- includesVersion ------------------------------------------------------ *)
-Fixpoint nums_prefix (r a : list Z) : bool :=
+Definition compare_versions (a r : mver) : Z := interp_compare compare_ladder a r.
+
+(* ---- includesVersion: the guards goextract recognised, in source order ----- *)
+(* for i := 0; i < len(r); i++ { if a[i] != r[i] { return false } } ; None = index out of range *)
+Fixpoint loop_prefix (r a : list Z) : option bool :=
   match r, a with
-  | [], _ => true
-  | x :: r', y :: a' => (x =? y) && nums_prefix r' a'
-  | _ :: _, [] => false
+  | [], _ => Some true
+  | _ :: _, [] => None
+  | x :: r', y :: a' => if x =? y then loop_prefix r' a' else Some false
   end.
 
+Fixpoint interp_includes (rs : list irung) (a r : mver) : option bool :=
+  match rs with
+  | [] => Some true
+  | ILenLt f :: rest =>
+      if zlen (slice_of f a) <? zlen (slice_of f r) then Some false else interp_includes rest a r
+  | ILoopPrefix f :: rest =>
+      match loop_prefix (slice_of f r) (slice_of f a) with
+      | None => None
+      | Some false => Some false
+      | Some true => interp_includes rest a r
+      end
+  | ILenGt f :: rest =>
+      if zlen (slice_of f a) >? zlen (slice_of f r) then Some true else interp_includes rest a r
+  | IFieldIfSet f zero :: rest =>
+      if negb (field_of f r =? zero) && negb (field_of f a =? field_of f r) then Some false
+      else interp_includes rest a r
+  end.
+
+(* None = the Go code would panic (index out of range) *)
+Definition includes_version_res (a r : mver) : option bool := interp_includes includes_ladder a r.
 Definition includes_version (a r : mver) : bool :=
-  if (Z.of_nat (List.length (m_nums a)) <? Z.of_nat (List.length (m_nums r))) then false
-  else if negb (nums_prefix (m_nums r) (m_nums a)) then false
-  else if (Z.of_nat (List.length (m_nums a)) >? Z.of_nat (List.length (m_nums r))) then true
-  else if negb (m_letter r =? 0) && negb (m_letter a =? m_letter r) then false
-  else if negb (m_pre r =? pre_None) && negb (m_pre a =? m_pre r) then false
-  else if negb (m_pre_n r =? 0) && negb (m_pre_n a =? m_pre_n r) then false
-  else if negb (m_post r =? post_None) && negb (m_post a =? m_post r) then false
-  else if negb (m_post_n r =? 0) && negb (m_post_n a =? m_post_n r) then false
-  else if negb (m_rev r =? 0) && negb (m_rev a =? m_rev r) then false
-  else true.
+  match includes_version_res a r with Some b => b | None => false end.
 
 (* ---- versionDependency.satisfies ------------------------------------------ *)
 Definition satisfies (dep : Z) (a r : mver) : bool :=
